@@ -137,7 +137,7 @@ def poly_items(x_items, y_items):
     """'X|Y' = Y's notes, then X's notes, where a note equal to the one just before it is not repeated"""
     res = list(y_items)
     for it in x_items:
-        if item_key(it) != item_key(res[-1]):
+        if not res or item_key(it) != item_key(res[-1]):
             res.append(it)
     return res
 
